@@ -7,6 +7,7 @@ From FR Require Import Base Utf8 Ast Analyze Escape Parse.
 From FR Require Import Utf8Facts EscapeParse Sem EscapeSem.
 From FR.Generated Require Consts.
 From Coq Require Import Lia.
+From FR Require Import WsProofs EscapeWs.
 
 Theorem C17_escape_borrow : forall s, snd (escape s) = negb (existsb is_special s).
 Proof. intros s. unfold escape. destruct (existsb is_special s); reflexivity. Qed.
@@ -102,6 +103,24 @@ Example ex_parse_escaped :
   end.
 Proof. vm_compute. exact I. Qed.
 
+(* escape and free-spacing hosts: in front of ANY character of the escaped string that is not
+   whitespace, inside any host pattern, the token-boundary skipper does not move, with or without
+   (?x) - an escaped '#' never opens a comment.  (Whitespace itself is not protected by escape;
+   the statement excludes it exactly.)  Rests on '#' and '(' being in the special set re-read
+   from the source. *)
+Theorem C17_escape_opaque_to_free_spacing : forall pre s1 c s2 post fl fuel, is_ws c = false ->
+  let re := pre ++ push_quoted (s1 ++ c :: s2) ++ post in
+  let ix := length pre + length (push_quoted s1) in
+  optional_whitespace re (S fuel) fl ix = POk ix.
+Proof. exact escape_opaque_to_free_spacing. Qed.
+
+(* non-vacuity: "(?x)" ++ escape("a#b"), at the escaped '#' (index 5) *)
+Example ex_hash_opaque :
+  optional_whitespace ([40; 63; 120; 41] ++ push_quoted [97; 35; 98]) 3
+    {| f_casei := false; f_multi := false; f_dotnl := false; f_swap := false; f_space := true; f_unicode := true |} 5
+  = POk 5.
+Proof. vm_compute. reflexivity. Qed.
+
 Print Assumptions C17_escape_borrow.
 Print Assumptions C17_quoted_shape.
 Print Assumptions C17_specials_cover_parser.
@@ -125,3 +144,4 @@ Check C17_embedded : forall cx fuel pre cs post g st, cs <> [] ->
                       then cgo cx fuel (g + ngroups_list pre) post (fst s1 + length (concat cs), snd s1) else [])
            (cgo cx fuel g pre st).
 Print Assumptions C17_embedded.
+Print Assumptions C17_escape_opaque_to_free_spacing.
